@@ -94,6 +94,59 @@ def undeclared_module_state(ctx, sc, fdef):
     return sorted(found.items())
 
 
+class _Canary(ast.NodeTransformer):
+    """a deliberately wrong variant of a spec function: every returned value and every value stored into state becomes an unrelated term"""
+
+    def __init__(self):
+        self.n = 0
+
+    def wrong(self, node):
+        self.n += 1
+        new = ast.Call(func=ast.Name(id="CANARY_WRONG_VALUE", ctx=ast.Load()), args=[ast.Constant(value=self.n)], keywords=[])
+        return ast.copy_location(new, node)
+
+    def visit_Return(self, node):
+        if node.value is not None:
+            node.value = self.wrong(node.value)
+        return node
+
+    def visit_Assign(self, node):
+        self.generic_visit(node)
+        if any(isinstance(t, (ast.Attribute, ast.Subscript)) for t in node.targets):
+            node.value = self.wrong(node.value)
+        return node
+
+    def visit_Call(self, node):
+        self.generic_visit(node)
+        if isinstance(node.func, ast.Attribute) and node.func.attr in ("append", "extend", "update", "add") and node.args:
+            node.args = [self.wrong(node.args[0])] + node.args[1:]
+        return node
+
+
+def canary(ctx, c, real, spec):
+    """vacuity guard (thorough tier): the engine must REJECT a wrong spec. Returns None if it does, else a description."""
+    import copy as _copy
+    bad = _copy.deepcopy(spec)
+    tr = _Canary()
+    bad = tr.visit(bad)
+    if tr.n == 0:
+        body = [x for x in bad.body if not (isinstance(x, ast.Expr) and isinstance(x.value, ast.Constant))]
+        if len(body) < 1:
+            return None
+        bad.body = body[1:] or [ast.Pass()]
+    ast.fix_missing_locations(bad)
+    ls = Lockstep(ctx, c)
+    try:
+        ls.run(real, bad)
+    except Unsupported:
+        return None
+    for ob in ls.obs:
+        st, _, _, _ = solve(ctx, ob)
+        if st in ("failed", "undecided"):
+            return None
+    return "canary: all %d obligations of %s discharge against a deliberately wrong spec (every result / stored value replaced)" % (len(ls.obs), c.qual)
+
+
 def verify_function(ctx, c, section, only_prop):
     sc = c.sidecar
     ctx.cur_globals = sc.globals
@@ -157,6 +210,11 @@ def verify_function(ctx, c, section, only_prop):
         section["obligations"].append(rec)
     if n_real == 0:
         section["errors"].append("zero feasible obligations for %s (vacuity guard)" % c.qual)
+    if os.environ.get("VERIF_CANARY") == "1" and c.mode == "equiv" and spec is not None:
+        t1 = time.time()
+        why = canary(ctx, c, real, spec)
+        section["obligations"].append({"name": "%s/canary" % c.name, "status": C.DISCHARGED if why is None else C.ERROR, "backend": "z3", "time_s": round(time.time() - t1, 3),
+                                       "goal": "a deliberately wrong spec of %s is rejected (the engine does not prove everything)" % c.qual, "detail": why, "props": c.props})
     section["extra"]["per_function"][c.name] = {"obligations": n_real, "infeasible_pairs": agg.get("infeasible", 0), "wall_s": round(time.time() - t0, 2),
                                                  **ls.stats}
     section["notes"].extend("%s: %s" % (c.name, n) for n in ls.notes[:10])
